@@ -95,6 +95,9 @@ void *vf_memcpy(void *d, const void *s, uint64_t n)
 {
     __CPROVER_assert(n == 0 || __CPROVER_r_ok(s, n), "memcpy: source range readable");
     __CPROVER_assert(n == 0 || __CPROVER_w_ok(d, n), "memcpy: destination range writable");
+#ifdef VF_TRACKED
+    __CPROVER_assert(!(g_o_alive && n != 0 && VF_OVERLAPS_O(d, n)), "lifetime: a byte copy does not overwrite the storage of an alive non-trivial object");
+#endif
     if (n != 0)
     {
         /* faithful at the witness byte g_wit and at VF_WINDOWS eight-byte windows g_win[], arbitrary elsewhere:
@@ -154,3 +157,46 @@ uint32_t f_memcmp(uint8_t *a, uint8_t *b, uint64_t n)
     return 0;
 }
 uint32_t f_bcmp(uint8_t *a, uint8_t *b, uint64_t n) { return f_memcmp(a, b, n); }
+
+/* ---- object-lifetime hooks of vf::Tracked ---- */
+uint8_t *g_o; _Bool g_o_alive; uint8_t g_o_how; uint8_t *g_o_from; uint8_t g_o_asg; _Bool g_o_moved_from;
+uint64_t g_obj_live, g_obj_ctor, g_obj_copy, g_obj_move, g_obj_assign, g_obj_move_assign, g_obj_dtor;
+static void vf_obj_born(uint8_t *p, uint8_t how, uint8_t *from)
+{
+    __CPROVER_assert(!(p == g_o && g_o_alive), "lifetime: no object is constructed over an alive object");
+    if (p == g_o) { g_o_alive = 1; g_o_how = how; g_o_from = from; g_o_asg = 0; g_o_moved_from = 0; }
+    g_obj_live++;
+}
+void f_vf_obj_ctor(uint8_t *p, uint32_t v) { (void)v; g_obj_ctor++; vf_obj_born(p, 0, 0); }
+void f_vf_obj_copy(uint8_t *p, uint8_t *src)
+{
+    __CPROVER_assert(src != g_o || g_o_alive, "lifetime: copy construction reads an alive object");
+    g_obj_copy++; vf_obj_born(p, 1, src);
+}
+void f_vf_obj_move(uint8_t *p, uint8_t *src)
+{
+    __CPROVER_assert(src != g_o || g_o_alive, "lifetime: move construction reads an alive object");
+    if (src == g_o) g_o_moved_from = 1;
+    g_obj_move++; vf_obj_born(p, 2, src);
+}
+void f_vf_obj_assign(uint8_t *p, uint8_t *src)
+{
+    __CPROVER_assert(p != g_o || g_o_alive, "lifetime: assignment targets an alive object");
+    __CPROVER_assert(src != g_o || g_o_alive, "lifetime: assignment reads an alive object");
+    if (p == g_o) { g_o_asg = 1; g_o_from = src; }
+    g_obj_assign++;
+}
+void f_vf_obj_move_assign(uint8_t *p, uint8_t *src)
+{
+    __CPROVER_assert(p != g_o || g_o_alive, "lifetime: move assignment targets an alive object");
+    __CPROVER_assert(src != g_o || g_o_alive, "lifetime: move assignment reads an alive object");
+    if (p == g_o) { g_o_asg = 2; g_o_from = src; }
+    if (src == g_o) g_o_moved_from = 1;
+    g_obj_move_assign++;
+}
+void f_vf_obj_dtor(uint8_t *p)
+{
+    __CPROVER_assert(p != g_o || g_o_alive, "lifetime: an object is destroyed exactly once (no destruction of a dead object)");
+    if (p == g_o) g_o_alive = 0;
+    g_obj_dtor++; g_obj_live--;
+}
